@@ -430,13 +430,15 @@ let mut sockets: Vec<MioTcpListener> = Vec::new();
         // Ok means at least one listener; every listener is bound to one of the resolved addresses with the requested
         // backlog, at most one per address   [C01]
         r matches Ok(v) ==> 1 <= v@.len() <= addr.resolved().len() && v@.len() <= 65536
-            && forall|k: int| 0 <= k < v@.len() ==> (#[trigger] v@[k]).backlog() == backlog as i32 && addr.resolved().contains(v@[k].bound_to()),
+            && forall|k: int| 0 <= k < v@.len() ==> (#[trigger] v@[k]).backlog() == backlog as i32 && addr.resolved().contains(v@[k].bound_to())
+                && v@[k].nonblocking() && v@[k].listening_stream(),   // [C01,C05] what create_mio_tcp_listener establishes, for every listener returned
 //@loop head="while r9_q.len() > 0"
         invariant
             r9_q@.len() + sockets@.len() <= addr.resolved().len(), addr.resolved().len() <= 65536,
             success == (sockets@.len() > 0),
             forall|j: int| 0 <= j < r9_q@.len() ==> addr.resolved().contains(#[trigger] r9_q@[j]),
-            forall|k: int| 0 <= k < sockets@.len() ==> (#[trigger] sockets@[k]).backlog() == backlog as i32 && addr.resolved().contains(sockets@[k].bound_to()),
+            forall|k: int| 0 <= k < sockets@.len() ==> (#[trigger] sockets@[k]).backlog() == backlog as i32 && addr.resolved().contains(sockets@[k].bound_to())
+                && sockets@[k].nonblocking() && sockets@[k].listening_stream(),
         decreases r9_q@.len(),
 //@end
 
@@ -624,10 +626,17 @@ StdUnixListener::bind(addr)
 //@spec
     requires self.wf(), self.token < usize::MAX - 65536,
     ensures r matches Ok(b) ==> b.wf() && b.token >= self.token,   // [C01] one fresh token, one factory and one listener per resolved address
+        // every listener `bind` adds is a non-blocking TCP listener (the accept loop drains it until WouldBlock; a
+        // blocked accept thread never sees Pause, Resume or Stop); the earlier entries are untouched   [C01,C05,C06]
+        r matches Ok(b) ==> forall|i: int| self.token <= i < b.token ==> listener_nonblocking(&(#[trigger] b.sockets@[i]).2) && b.sockets@[i].2 is Tcp,
+        r matches Ok(b) ==> forall|i: int| 0 <= i < self.token ==> (#[trigger] b.sockets@[i]) == self.sockets@[i],
 //@loop head="while r9_q.len() > 0"
         invariant
             r4_self.wf(),
             r4_self.token >= self.token,
+            forall|j: int| 0 <= j < r9_q@.len() ==> (#[trigger] r9_q@[j]).nonblocking(),
+            forall|i: int| self.token <= i < r4_self.token ==> listener_nonblocking(&(#[trigger] r4_self.sockets@[i]).2) && r4_self.sockets@[i].2 is Tcp,
+            forall|i: int| 0 <= i < self.token ==> (#[trigger] r4_self.sockets@[i]) == self.sockets@[i],
             r4_self.token + r9_q@.len() < usize::MAX,
         decreases r9_q@.len(),
 //@end
